@@ -2,6 +2,11 @@
 import collections
 
 
+def chist_slack():
+    import chist
+    return chist.REQ_TIMEOUT + 2
+
+
 def viol(res, r, what, clause, **facts):
     f = dict(clause=clause, client=r.kind)
     f.update(facts)
@@ -190,8 +195,21 @@ def c09(res, r):
             break
 
 
-def c09_silence(res, r, I, T, grace=40):
-    """after the finale's silence the client must have declared the connection lost"""
-    v = r.views[-1]
-    if v[0] == 'connected':
-        viol(res, r, 'the server went silent for longer than the heartbeat bound and the client still reports connected', 'silence', view=v)
+def c09_silence(res, r, slack=chist_slack()):
+    """a client that hears nothing from the server for longer than interval + timeout (+ the fixed 5 s on polling, + one request
+    time-out for a request that is in flight) must have declared the connection lost"""
+    I = T = None
+    last = 0
+    for i, op in enumerate(r.log):
+        if op[0] in ('reply', 'wsframe', 'wsanswer', 'wsclose') or (op[0] == 'call' and op[1] == 'connect'):
+            last = r.times[i]
+        for p in pkts_of(op):
+            if p[0] == 'open' and p[1]:
+                I, T = p[3], p[4]
+        v = r.views[i]
+        if v[0] == 'connected' and I is not None:
+            bound = I + T + 40 + slack
+            if r.times[i] - last > bound:
+                viol(res, r, 'the server has been silent for longer than the heartbeat bound and the client still reports connected', 'silence',
+                     step=i, silent_for=r.times[i] - last, bound=bound, view=v)
+                return
